@@ -196,6 +196,29 @@ def r19_2(ctx: Ctx, entry, pr, prev, class_table):
                     if atoms & {"param:tjp_file", "param:tjp_path", "call:validate_tjp_file"} \
                             and "call:mkdtemp" not in atoms:      # not a file of the private output dir
                         sites.append((fn, c))
+    # stdin is input too: a decoding failure of the piped bytes must land in the "unreadable input" class
+    for c in own_nodes(entry):
+        if isinstance(c, ast.Call) and dotted(c.func) in ("sys.stdin.read", "sys.stdin.buffer.read"):
+            textmode = dotted(c.func) == "sys.stdin.read"
+            decs = [d for d in own_nodes(entry) if isinstance(d, ast.Call) and isinstance(d.func, ast.Attribute) and d.func.attr == "decode"]
+            guarded = False
+            for d in ([c] if textmode else decs):
+                p_ = getattr(d, "_parent", None)
+                while p_ is not None and p_ is not entry.node:
+                    if isinstance(p_, ast.Try) and any(d is y for st in p_.body for y in ast.walk(st)):
+                        for h in p_.handlers:
+                            names = [norm(h.type)] if h.type is not None and not isinstance(h.type, ast.Tuple) else [norm(e) for e in getattr(h.type, "elts", [])]
+                            if any(n_ in ("UnicodeDecodeError", "UnicodeError", "ValueError") for n_ in names) and any(
+                                    isinstance(x, ast.Raise) and x.exc is not None and EXPECTED_CODES.get(norm(x.exc.func if isinstance(x.exc, ast.Call) else x.exc)) == 1
+                                    for st in h.body for x in ast.walk(st)):
+                                guarded = True
+                    p_ = getattr(p_, "_parent", None)
+            ok = guarded and (textmode or bool(decs))
+            ctx.ob("R19.2r", f"{entry.qual}: {norm(c)} decoding failure -> exit 1", (entry, c), ok,
+                   "bytes that are not valid UTF-8 on stdin are reported as unreadable input" if ok else
+                   "a decoding failure of the piped input is not mapped to the unreadable-input class: it surfaces in the generic handler "
+                   "(exit 2) while a file with the same bytes exits 1",
+                   key=key_of("R19.2r", entry, None, "stdin decode"))
     if not any(fn is not entry for fn, _c in sites):
         raise AnchorMissing("create_auto_report_file: read of the input file not found")
     for fn, c in sites:
